@@ -37,6 +37,34 @@ Proof.
   intros self m p H. unfold required_symbols. apply in_or_app. right. apply in_or_app. right. rewrite H. left. reflexivity.
 Qed.
 
+(* the bound of EVERY type parameter is required, whatever the parameters are called: bounds are added after all
+   bindings have been subtracted (def.rs required_symbols: pass (1) removes the bindings, pass (2) adds the bounds), so in
+   `Lan(Host <- Node, Node <- Switch)` the global module Node stays required although a later parameter is called Node *)
+Lemma bounds_are_required : forall self m g, In g (tc_args self) -> In (g_bound g) (required_symbols self m).
+Proof.
+  intros self m g Hg. unfold required_symbols. apply in_or_app. right. apply in_or_app. left. apply in_map. exact Hg.
+Qed.
+
+(* ... and everything else a submodule names is required unless the module binds that name itself *)
+Lemma unbound_names_are_required : forall self m f t s,
+  In (f, t) (md_subs m) -> (s = tc_ident t \/ In s (tc_args t)) -> is_binding (tc_args self) s = false ->
+  In s (required_symbols self m).
+Proof.
+  intros self m f t s Hin Hs Hnb. unfold required_symbols. apply in_or_app. left.
+  apply filter_In. split; [|rewrite Hnb; reflexivity].
+  apply in_or_app. destruct Hs as [->|Hs].
+  - left. apply in_map_iff. exists (f, t). split; [reflexivity|exact Hin].
+  - right. apply in_flat_map. exists (f, t). split; [exact Hin|exact Hs].
+Qed.
+
+Theorem shadowed_bound_unresolvable : forall fx d im g,
+  In im (d_modules d) -> In g (tc_args (fst im)) ->
+  (forall im', In im' (d_modules d) -> tc_ident (fst im') <> g_bound g) ->
+  transform fx d = Err K_UNRESOLVABLE_DEPENDENCY.
+Proof.
+  intros fx d im g Him Hg Hno. eapply unknown_type_unresolvable; [exact Him|apply bounds_are_required; exact Hg|exact Hno].
+Qed.
+
 Theorem inherit_of_own_binding_unresolvable : forall fx d im p,
   In im (d_modules d) -> md_inherit (snd im) = Some p -> is_binding (tc_args (fst im)) p = true ->
   (forall im', In im' (d_modules d) -> tc_ident (fst im') <> p) ->
